@@ -8,6 +8,7 @@ from ..core.explore import Check
 from ..lang import corpus, paths, strlit
 
 POSITIONS = ["print", "list", "mapkey", "import", "dead", "fnbody"]
+DIRNAMES = ["a b", "é", "a\"b", "a\\b", "a\tb", "a'b", "\u00a0x", "\U0001F600", "a#b", "a b/c d"]
 
 
 def program_for(s, pos, raw_ws=False):
@@ -62,7 +63,8 @@ class C04(Check):
                     yield ("str", t, pos, raw)
 
         from ..lang import gencorpus
-        ls = [("L0-strings<=2-all-positions", list(strings(0, 2, POSITIONS))),
+        ls = [("L0-directory-names", [("dir", i) for i in range(len(DIRNAMES))]),
+              ("L0-strings<=2-all-positions", list(strings(0, 2, POSITIONS))),
               ("L1-examples", ex),
               ("L2-strings<=2-raw-whitespace", list(strings(0, 2, ["print", "import"], raw=True))),
               ("L3-generated-corpus", [("gen", name) for name in gencorpus.names(tier)]),
@@ -94,6 +96,15 @@ class C04(Check):
             cwd, entry = corpus.stage(d, case[1], case[2])
             files = {}
             desc = {"example": case[2]}
+        elif case[0] == "dir":
+            # function and module paths (instruction arguments) are derived from the path given on the command line
+            dn = DIRNAMES[case[1]]
+            files = {dn + "/x.ms": "f = fn() -> int {\n\treturn 1\n}\nimport m\nprint f() + m.v\nprint m.g()\n",
+                     dn + "/m.ms": "export v: int = 2\nexport g: fn() -> str = fn() -> str {\n\treturn \"g\"\n}\n"}
+            driver.write_files(d, files)
+            cwd, entry = d, dn + "/x.ms"
+            expected = "3\ng\n"
+            desc = {"dirname": dn}
         else:
             from ..lang import gencorpus
             files = gencorpus.get(case[1])
@@ -124,7 +135,7 @@ class C04(Check):
                 sg["chars"] = "".join(sorted({("bs" if ch == "\\" else "q" if ch == '"' else "ws" if ch in " \t\n\r" else "x")[0:2] for ch in s_}))
                 sg["has_backslash"] = "\\" in s_
             else:
-                sg["name"] = desc.get("example") or desc.get("generated")
+                sg["name"] = desc.get("example") or desc.get("generated") or desc.get("dirname")
             sg.update(sig)
             viol.append({"sig": sg, "what": what, "detail": detail})
 
